@@ -78,7 +78,7 @@ def _check_tmana(c, tmp):
     amap = rng.integers(base, nang + base, shape).astype(np.float64)
     alist = np.column_stack([rng.uniform(-180, 180, nang), rng.uniform(0, 180, nang), rng.uniform(-180, 180, nang)])  # (phi, theta, psi)
     given = alist if c["order"] == "zxz" else alist[:, [0, 2, 1]]
-    arg = given
+    arg = given.copy()
     if c["as_file"]:
         arg = os.path.join(tmp, "angles.csv")
         np.savetxt(arg, given, delimiter=",")
@@ -114,6 +114,14 @@ def _check_tmana(c, tmp):
         m, e = call(tmana.scores_extract_particles, scores, amap, arg, 5, c["diam"], scores_threshold=thr, angles_order=c["order"], angles_numbering=base)
     finally:
         sys.settrace(None)
+    if e is None and not c["as_file"]:
+        # the in-memory angle list is shared between the tomograms of a batch: the call must leave it as it was, and a second call
+        # with the same list must give the same particles
+        if not np.array_equal(arg, given):
+            return {"what": "the caller's angle list was modified by the call (it is reused for the next tomogram)", "order": c["order"]}
+        m2, e2 = call(tmana.scores_extract_particles, scores, amap, arg, 5, c["diam"], scores_threshold=thr, angles_order=c["order"], angles_numbering=base)
+        if e2 is not None or not np.array_equal(m2.df.values, m.df.values):
+            return {"what": "a second call with the same angle list gives different particles", "order": c["order"], "raised": repr(e2)}
     if "cands" in seen:
         cs = seen["cands"]
         if seen["threshold"] != thr:
@@ -172,6 +180,29 @@ def replay_small(kind="clean"):
     c = {"kind": kind, "n": 30, "groups": 2, "d": 5.0, "greater": True, "feature": "tomo_id", "metric": "score", "seed": 5, "map": 12, "numbering": 1, "order": "zzx", "as_file": False, "diam": 3.5}
     r = run_case(c)
     return {"reproduced": r is not None, "input": c, "observed": r}
+
+
+def replay_angles_load(order, src):
+    """native replay of the rot_angles_load contract: rows (phi, theta, psi), array argument unchanged"""
+    from cryocat import ioutils
+    rng = np.random.default_rng(7)
+    alist = np.column_stack([rng.uniform(-180, 180, 9), rng.uniform(0, 180, 9), rng.uniform(-180, 180, 9)])
+    given = alist if order == "zxz" else alist[:, [0, 2, 1]]
+    with scratch() as tmp:
+        arg = given.copy()
+        if src == "file":
+            arg = os.path.join(tmp, "angles.csv")
+            np.savetxt(arg, given, delimiter=",")
+        out = []
+        for k in range(2):
+            r, e = call(ioutils.rot_angles_load, arg, order)
+            if e is not None:
+                return {"reproduced": True, "input": {"order": order, "src": src}, "observed": repr(e)}
+            out.append(np.array(r))
+        bad = [k for k in range(2) if out[k].shape != alist.shape or not np.allclose(out[k], alist)]
+        changed = src == "array" and not np.array_equal(arg, given)
+        return {"reproduced": bool(bad or changed), "input": {"order": order, "src": src, "rows": given[:2].tolist()},
+                "observed": {"calls_with_wrong_rows": bad, "argument_changed": bool(changed), "first_rows": [o[:2].tolist() for o in out]}}
 
 
 def replay_clean(cfg=None):
